@@ -3,7 +3,14 @@ _ENV = {"GOGC": "800"}          # the sweeps allocate heavily; fewer collections
 _CFG = ["avx2", "noaes"]        # asm variant; "purego" is added as its own variant below
 
 
+# Every line carries the 120 s case deadline: a mixed-order (.after) job inherits the deadline of its main workload and
+# runs slices of ALL other C16 workloads first in the same process, the alteration sweeps among them (seconds of CPU per
+# case, far beyond the 30 s default on a loaded machine).
+_DL = "120s"
+
+
 def _both(wl, shards, floor, deadline=None, cfg=_CFG):
+    deadline = deadline or _DL
     return [J(wl, cfg, "asm", shards, floor=floor, env=_ENV, procs=2, deadline=deadline),
             J(wl, ["purego"], "purego", shards, floor=floor, env=_ENV, procs=2, deadline=deadline)]
 
@@ -41,7 +48,22 @@ PLAN = dict(
          "recipient encodings, with a Session) x 12 content ciphers x 14 buffer shapes, 95 SignedData templates (all modes, 1-3 "
          "signers, cfca wrappers) x shapes, overwrite points after the constructor / after the last Add* / after Finish, Finish "
          "output overwritten before the next Finish, message, detached content / digest and pre-shared key of the consuming calls "
-         "in shaped buffers, a returned plaintext overwritten before the same parsed object decrypts again. End-entity keys, serial numbers and "
+         "in shaped buffers, a returned plaintext overwritten before the same parsed object decrypts again. Parsing side "
+         "(c16.parsebuf.*): the encoded message - every SignedData template (all modes, cfca wrappers), every envelope route x "
+         "content cipher (EnvelopedData in the four recipient encodings, with a Session / ParseWithSession, EncryptedData, "
+         "SignedAndEnvelopedData, cfca envelopes), contents up to 70000 bytes, as DER and in the BER forms all-indefinite / "
+         "long-form lengths / random forms / constructed content string - is parsed from a caller buffer of every shape (exact, "
+         "spare capacity 1 / 16 / 4096, windows, three-index slices, guard page at either end) and from a private copy (the twin); "
+         "the buffer is audited after Parse and after every consuming call, then overwritten (every byte inverted, or another valid "
+         "message of the same description, signers / recipients and length - found among up to three builds - received into it), "
+         "then every value reachable from the parsed object (reflective walk: Content, Certificates, CRLs, Signers, recipient keys, "
+         "ciphertext, IV ...) and the result of every consuming operation (Verify, VerifyWithChain, VerifyWithChainAtTime, "
+         "VerifyAsDigest, VerifyAsDigestWithChain, GetOnlySigner, UnmarshalSignedAttribute, reading Content; Decrypt / DecryptCFCA / "
+         "DecryptAndVerify per recipient, DecryptAndVerifyOnlyOne, stranger and mismatched certificate / key pairs, DecryptUsingPSK "
+         "right / other key, GetRecipients) is compared with the twin's; slices returned before the overwrite must keep their "
+         "bytes; the next message parsed from the reused buffer must be that message; the one-call cfca readers are audited and "
+         "what they return must survive the overwrite. All other workloads parse through one shared receive buffer that is inverted "
+         "as soon as Parse returned, so their oracles judge objects whose input buffer is gone. End-entity keys, serial numbers and "
          "contents come from the case PRNG; a case is non-trivial unless marked (empty DER content); distinct = distinct class "
          "keys (configuration | api / mode / OID family / verification path / signer (key-digest-attributes) list or "
          "api / cipher / recipient kinds | content-length class)",
@@ -54,9 +76,11 @@ PLAN = dict(
     + _both("c16.history.builder", (1, 2), 100, None, _SIG)
     + _both("c16.buffers.env", (1, 4), 1000)
     + _both("c16.buffers.signed", (1, 2), 300, None, _SIG)
+    + _both("c16.parsebuf.env", (1, 4), 300)
+    + _both("c16.parsebuf.signed", (1, 2), 200, None, _SIG)
     + [J("c16.sha1", ["sha1ok"], "asm", (1, 4), floor=20, env=_ENV, procs=2, deadline="120s"),
-       J("c16.ber.der", ["avx2"], "asm", (1, 2), floor=1000, env=_ENV, procs=2),
-       J("c16.ber.variants", ["avx2"], "asm", (1, 2), floor=100, env=_ENV, procs=2)],
+       J("c16.ber.der", ["avx2"], "asm", (1, 2), floor=1000, env=_ENV, procs=2, deadline=_DL),
+       J("c16.ber.variants", ["avx2"], "asm", (1, 2), floor=100, env=_ENV, procs=2, deadline=_DL)],
     assumptions=[
         "the library draws signature nonces, content keys and IVs from crypto/rand.Reader and the signing time from the clock; "
         "the harness points crypto/rand.Reader at a per-case PRNG, the clock is not controlled: a replay re-creates a message "
@@ -68,6 +92,7 @@ PLAN = dict(
         "a trust store also TBSCertificate, signature algorithm and signature value of the signer certificate. Every signer of "
         "the altered message must be a signer of the original (a SignerInfo can be dropped: PKCS#7 does not bind the set).",
         "panics inside parsers on altered bytes are counted, not judged (property C13)",
+        "a reader does not touch the message buffer while Parse or a call on the parsed object runs, only between calls; "
         "a caller does not touch the content buffer while a builder call runs; between the constructor and AddSigner a change "
         "of the buffer may or may not be picked up (SignedData and SignedAndEnvelopedData keep the slice): both are accepted",
         "a curve identifier (P-256 / P-384 / P-521) in the place of a signature algorithm means ECDSA with the hash of the "
@@ -96,13 +121,18 @@ CLAIM = dict(
          "output of one builder parses and verifies / opens. No producing or consuming call changes a byte the caller can see "
          "through the slices it handed over (content, digest, pre-shared key, message, detached content) or outside them, whatever "
          "the capacity or placement of the buffer, and no produced message or parsed result depends on a caller buffer after the "
-         "last call that takes it returned, or on a slice the library returned earlier. Observed without verdict (the API promises "
+         "last call that takes it returned, or on a slice the library returned earlier. The same holds for the parsing side: once "
+         "Parse / ParseWithSession (or a cfca reader) has returned, the parsed object - every value it holds and the result of every "
+         "Verify* / Decrypt* / accessor call - equals that of a twin parsed from a private copy, whatever the caller does to the buffer "
+         "the message was in (inverted, refilled with another valid message of the same length, parsed from again), for DER and BER "
+         "input in every buffer shape; no parsing or consuming call writes into that buffer, and nothing a call returned lives in it. "
+         "Observed without verdict (the API promises "
          "neither): writes into spare capacity [len:cap] (the CBC / ECB padding is appended there), builders keeping the content by "
          "reference between constructor and AddSigner (every use must then show the value at construction or at call time, "
-         "consistently), parsed objects after the message buffer was overwritten. Exploration: soundness is decided on the "
+         "consistently). Exploration: soundness is decided on the "
          "single-byte substitution class only.",
     design_ref="DESIGN.md 6 (C16)",
     note="trusted: Go crypto/x509-style parsing inside smx509 for the PKI the harness builds with smx509.CreateCertificate, "
          "encoding/asn1, the harness's structural DER reader (self-tested at start), the generator's own fields as oracle",
-    technique="round-trip laws + semantic-equality-under-alteration monitor + recipient/non-recipient accept-set + DER fixed-point monitor (verif hook VerifBER2DER) + caller-buffer audit (private copies, guard pages)",
+    technique="round-trip laws + semantic-equality-under-alteration monitor + recipient/non-recipient accept-set + DER fixed-point monitor (verif hook VerifBER2DER) + caller-buffer audit (private copies, guard pages) + twin-object comparison after the input buffer was overwritten",
 )
